@@ -32,10 +32,10 @@ def zone_idx(name="zone_idx", hi=15):
     return sym_int(name, 0, hi)
 
 
-def when(name):
+def when(name, secs=False):
     """A valid date-time (minute resolution) incl. leap days."""
     y, mo, d = sym_int(name + "_y", 2000, 2099), sym_int(name + "_mo", 1, 12), sym_int(name + "_d", 1, 31)
-    t = outcome(dt, y, mo, d, sym_int(name + "_h", 0, 23), sym_int(name + "_mi", 0, 59))
+    t = outcome(dt, y, mo, d, sym_int(name + "_h", 0, 23), sym_int(name + "_mi", 0, 59), sym_int(name + "_s", 0, 59) if secs else 0)
     assume(t.ok)
     return t.value
 
@@ -51,7 +51,10 @@ def args_for(key):
         return (BDR, m), {}, {}
     if key in (" I|1FC9", " W|1FC9"):
         if verb == " I":
-            return (" I", SEN, ["30C9", "2309"]), {}, {}
+            k = sym_choice("offer_to", ["self", "broadcast"])
+            if k == "broadcast":  # an offer addressed to 63:262142, with an OEM code
+                return (" I", SEN, ["30C9", "2309"], "63:262142"), {"oem_code": "6C"}, {"_n_bindings": 4}
+            return (" I", SEN, ["30C9", "2309"]), {}, {"_n_bindings": 3}
         return (" W", CTL, ["30C9"], SEN), {"idx": "00"}, {}
     if key == " W|22F7":
         return (FAN,), {"bypass_position": sym_int("pos", 0, 200) / 200, "src_id": REM}, {}
@@ -107,8 +110,8 @@ def args_for(key):
     if key == " W|2E04":
         return (CTL, sym_choice("system_mode", [0, 1, 2, 3, 4, 5, 6, 7])), {}, {}
     if key == " W|313F":
-        t = when("t")
-        return (CTL, t), {"is_dst": sym_bool("is_dst")}, {}
+        t = when("t", secs=True)
+        return (CTL, t), {"is_dst": sym_bool("is_dst")}, {"datetime": t.isoformat(timespec="seconds")}
     if key == "RQ|1100":
         return (BDR,), {}, {}
     if key == " W|1100":
@@ -126,6 +129,12 @@ def args_for(key):
     if key == " W|2349":
         z = zone_idx()
         sp = grid_temp("sp", 500, 3500)
+        kind = sym_choice("mode_kind", ["plain", "countdown", "temporary"])
+        if kind == "countdown":
+            d = sym_int("duration", 0, 1215)
+            return (CTL, z), {"mode": 3, "setpoint": sp, "duration": d}, {"setpoint": sp, "duration": d}
+        if kind == "temporary":
+            return (CTL, z), {"mode": 4, "setpoint": sp, "until": when("until")}, {"setpoint": sp}
         return (CTL, z), {"mode": sym_choice("mode", [0, 1, 2]), "setpoint": sp}, {"setpoint": sp}
     if key == " W|0004":
         z = zone_idx()
@@ -183,7 +192,10 @@ def _constructor_contract(key):
     check(cmd._len * 2 == len(cmd.payload) and int(cmd.len_) == cmd._len, "the length field is the payload's byte count")
     m = outcome(decode_cmd, str(cmd))
     check(m.ok, "the library's own decoder accepts the frame")
-    if m.ok and isinstance(m.value.payload, dict):
+    if m.ok and "_n_bindings" in expect:
+        check(isinstance(m.value.payload, dict) and len(m.value.payload.get("bindings", [])) == expect["_n_bindings"],
+              "the decoded offer lists every code offered (plus the OEM entry and the closing 1FC9)")
+    elif m.ok and isinstance(m.value.payload, dict):
         for k, v in expect.items():
             check(Or(*[x == v for x in m.value.payload.values() if isinstance(x, (int, float, str)) and not isinstance(x, bool)]),
                   "the decoded payload carries the value passed in")
